@@ -55,6 +55,7 @@ WIDTH = {"u8": 8, "u16": 16, "u32": 32, "u64": 64, "usize": 64, "u128": 128}
 # ------------------------------------------------------------------------------------------------ lexer
 TOKEN = re.compile(r"""
    (?P<ws>\s+|//[^\n]*|/\*.*?\*/)
+ | (?P<str>b?"(?:[^"\\]|\\.)*")
  | (?P<num>0x[0-9a-fA-F_]+|\d[\d_]*)(?P<suf>u8|u16|u32|u64|u128|usize)?
  | (?P<id>[A-Za-z_][A-Za-z0-9_]*)
  | (?P<op><<=|>>=|\.\.=|::|&&|\|\||<<|>>|\+=|-=|\*=|/=|%=|\^=|&=|\|=|==|!=|<=|>=|->|=>|\.\.|[-+*/%&|^!<>=.,;:(){}\[\]\#?])
@@ -69,6 +70,9 @@ def lex(src):
             fail("cannot tokenize at: %r" % src[i:i + 30])
         i = m.end()
         if m.group("ws") is not None:
+            continue
+        if m.group("str") is not None:
+            out.append(("str", m.group("str")))
             continue
         if m.group("num") is not None:
             out.append(("num", int(m.group("num").replace("_", ""), 0), m.group("suf")))
@@ -121,6 +125,11 @@ class Parser:
             if self.isid("mut"):
                 self.next()
             return self.type_()
+        if self.isop("*"):          # raw pointer type
+            self.next()
+            if self.isid("mut") or self.isid("const"):
+                self.next()
+            return ("ptr", self.type_())
         if self.isop("["):
             self.next()
             el = self.type_()
@@ -236,6 +245,9 @@ class Parser:
         if p[0] == "num":
             self.next()
             return ("num", p[1], p[2])
+        if p[0] == "str":
+            self.next()
+            return ("str", p[1])
         if self.isop("("):
             self.next()
             e = self.expr()
@@ -626,6 +638,15 @@ def lvalue_name(e, cx):
     fail("unsupported lvalue %r" % (e,))
 
 
+def bytes_elem(e, cx):
+    """(base lean name, index ast) if e is `s[i]` on a byte-slice variable, else None"""
+    while e[0] == "paren":
+        e = e[1]
+    if e[0] == "index" and e[2][0] != "range" and e[1][0] == "var" and e[1][1] not in cx.subst and cx.types.get(lid(e[1][1])) == "bytes":
+        return lid(e[1][1]), e[2]
+    return None
+
+
 def typeof(e, cx):
     k = e[0]
     if k == "num":
@@ -643,6 +664,8 @@ def typeof(e, cx):
         if e[1] in cx.consts:
             return cx.consts.get("type:" + e[1])
         return None
+    if k == "index" and bytes_elem(e, cx) is not None:
+        return "u8"
     if k in ("field", "index"):
         try:
             n = lvalue_name(e, cx)
@@ -876,8 +899,9 @@ def collect_assigned(stmts, cx, acc, declared):
             for n in pat_names(s[1]):
                 declared.add(n)
         elif k == "assign":
+            be = bytes_elem(s[1], cx)
             try:
-                n = lvalue_name(s[1], cx)
+                n = be[0] if be else lvalue_name(s[1], cx)
             except Unsupported:
                 continue
             if n not in declared and n not in acc:
@@ -976,6 +1000,12 @@ def stmt(s, cx):
         return
     if k == "assign":
         lhs, op, rhs = s[1], s[2], s[3]
+        bl = bytes_elem(lhs, cx)
+        if bl is not None:      # out[i] = e / out[i] ^= e on a byte slice with a run-time index
+            base, idx = bl
+            val = ex(rhs, cx, "u8") if op is None else ex(("bin", op, lhs, rhs), cx, "u8")
+            bind(cx, base, "(setByte %s %s %s)" % (base, ex(idx, cx, "usize"), val), "bytes")
+            return
         # whole-array copies: tv[..8].copy_from_slice(sh) are handled as method statements
         n = lvalue_name(lhs, cx)
         if n not in cx.types:
@@ -1203,6 +1233,31 @@ def for_stmt(s, cx):
             stmts(body, cx)
         cx.subst = saved
         return
+    # `for b in bytes` over a (mutable) byte slice: a fold that rebuilds the slice element by element
+    if it[0] == "var" and it[1] not in cx.subst and cx.types.get(lid(it[1])) == "bytes" and pat[0] == "pvar":
+        base, var = lid(it[1]), lid(pat[1])
+        acc = []
+        collect_assigned(body, cx, acc, set())
+        writes = var in acc
+        acc = [a for a in acc if a in cx.types and a != var and a != base]
+        sub = Ctx(cx.fns, cx.consts)
+        sub.types = dict(cx.types)
+        sub.types[var] = "u8"
+        sub.closures = dict(cx.closures)
+        sub.subst = dict(cx.subst)
+        sub.indent = cx.indent + "    "
+        stmts(body, sub)
+        state = acc + ["out__"]
+        tup = "(%s)" % ", ".join(state)
+        sub.emit("(%s)" % ", ".join(acc + ["out__ ++ [UInt8.ofNat %s]" % var]))
+        cx.emit("let (%s) := (%s).foldl (fun x__ b__ =>" % (", ".join(acc + [base]), base))
+        cx.emit("    let %s := x__" % tup)
+        cx.emit("    let %s := b__.toNat" % var)
+        cx.lines.append("\n".join(sub.lines))
+        cx.emit("  ) (%s)" % ", ".join(acc + ["([] : Bytes)"]))
+        if not writes:
+            fail("byte loop that does not write its element: use chunks or an index loop")
+        return
     # chunks(N) / chunks_exact(N) of a byte slice: a fold over the loop-carried variables
     if it[0] == "method" and it[2] in ("chunks", "chunks_exact"):
         n = const_eval(it[3][0], cx)
@@ -1392,6 +1447,8 @@ def k_utils(repo):
     out = header("src/utils.rs", "Utils")
     for fn in ("load_u64_le", "load_u32_le", "rotr64", "pad16"):
         out += translate_fn(src, fn, {}, {}) + "\n"
+    out += translate_fn(src, "increment_bytes", {}, {}, outputs=["bytes"]) + "\n"
+    out += translate_fn(src, "xor_buf", {}, {}, outputs=["out"]) + "\n"
     return out + "end DryocVerif.Gen.Utils\n"
 
 
@@ -1552,7 +1609,105 @@ def k_core(repo):
     return out + "end DryocVerif.Gen.Core\n"
 
 
-KERNELS = {"Core": k_core, "Argon2": k_argon2, "Utils": k_utils, "Poly1305": k_poly1305, "Blake2b": k_blake2b, "SipHash": k_siphash}
+def k_protected(repo):
+    """the integer arithmetic of the page-aligned allocator (src/protected.rs): `_page_round`, the size handed to
+    posix_memalign and the offset of the trailing guard page in `allocate` and in `deallocate`"""
+    path = "src/protected.rs"
+    src = strip_tests(open(os.path.join(repo, path)).read())
+    fns = helper_sigs(src, ["_page_round"])
+    out = header(path, "Protected")
+    out += translate_fn(src, "_page_round", fns, {}) + "\n"
+    ren = {"layout.size()": "layout_size"}
+    ps = [("layout_size", "usize"), ("pagesize", "usize")]
+    out += translate_region(src, "allocate", fns, {}, start="let size =", stop="#[cfg(unix)]", lean_name="allocate_size",
+                            params=ps, pre={}, rename=ren, outputs=["size"]) + "\n"
+    out += translate_region(src, "allocate", fns, {}, start="let aft_protected_region_offset", stop="let aft_protected_region = unsafe",
+                            lean_name="allocate_aft_offset", params=ps, pre={}, rename=ren, outputs=["aft_protected_region_offset"]) + "\n"
+    out += translate_region(src, "deallocate", fns, {}, start="let aft_protected_region_offset", stop="let aft_protected_region =",
+                            lean_name="deallocate_aft_offset", params=ps, pre={}, rename=ren, outputs=["aft_protected_region_offset"]) + "\n"
+    # the arguments handed to the system calls (unix branch): length expression and protection flags, as data
+    def call_args(fn, callee):
+        _, _, body = find_fn(src, fn)
+        i = body.find(callee + "(")
+        if i < 0:
+            fail("%s: no call of %s" % (fn, callee))
+        pz = Parser(lex(body[i + len(callee):]))
+        pz.expect("(")
+        return pz.args()
+
+    def len_def(name, e):
+        cx = Ctx({}, {})
+        cx.types["data"] = "bytes"
+        return "def %s (data : Bytes) : Nat :=\n  %s\n\n" % (name, ex(e, cx, "usize"))
+
+    def flags(e):
+        while e[0] in ("paren", "cast"):
+            e = e[1]
+        if e[0] == "var":
+            return [e[1]]
+        if e[0] == "bin" and e[1] == "|":
+            return flags(e[2]) + flags(e[3])
+        fail("protection flags expression")
+    for fn, callee, nm in (("dryoc_mlock", "c_mlock", "mlock_len"), ("dryoc_mlock", "libc::munlock", "mlock_undo_len"),
+                           ("dryoc_munlock", "c_munlock", "munlock_len")):
+        a = call_args(fn, callee)
+        if len(a) != 2:
+            fail("%s: arity of %s" % (fn, callee))
+        out += len_def(nm, a[1])
+    for fn, nm in (("dryoc_mprotect_readonly", "mprotect_readonly"), ("dryoc_mprotect_readwrite", "mprotect_readwrite"), ("dryoc_mprotect_noaccess", "mprotect_noaccess")):
+        a = call_args(fn, "c_mprotect")
+        if len(a) != 3:
+            fail("%s: arity of mprotect" % fn)
+        out += len_def(nm + "_len", a[1])
+        out += "def %s_prot : List String := [%s]\n\n" % (nm, ", ".join('"%s"' % f for f in sorted(flags(a[2]))))
+    # deallocate: which bytes are wiped, and that the wipe precedes the release
+    _, _, dbody = find_fn(src, "deallocate")
+    m = re.search(r"let\s+region\s*=\s*std::slice::from_raw_parts_mut\(", dbody)
+    if not m:
+        fail("deallocate: `let region = std::slice::from_raw_parts_mut(…)` not found")
+    pz = Parser(lex(dbody[m.end() - 1:]))
+    pz.expect("(")
+    a = pz.args()
+    if len(a) != 2 or norm_text(a[0]) != "ptr.as_ptr()":
+        fail("deallocate: region does not start at the allocation's pointer")
+    cx = Ctx({}, {})
+    cx.types["layout_size"] = "usize"
+    wipe_len = ex(subst_call(a[1], "layout.size()", "layout_size"), cx, "usize")
+    iz, ifree = dbody.find("region.zeroize()"), dbody.find("libc::free(")
+    order_ok = 0 <= iz < ifree and iz > m.start()
+    out += "def deallocate_wipe_len (layout_size : Nat) : Nat :=\n  %s\n\n" % wipe_len
+    out += "def deallocate_wipes_before_free : Bool := %s\n\n" % ("true" if order_ok else "false")
+    return out + "end DryocVerif.Gen.Protected\n"
+
+
+def norm_text(e):
+    """source-like text of simple ASTs (used to compare an argument with an expected spelling)"""
+    k = e[0]
+    if k == "var":
+        return e[1]
+    if k == "method":
+        return "%s.%s(%s)" % (norm_text(e[1]), e[2], ",".join(norm_text(x) for x in e[3]))
+    if k == "field":
+        return "%s.%s" % (norm_text(e[1]), e[2])
+    if k == "paren":
+        return norm_text(e[1])
+    if k == "cast":
+        return norm_text(e[1])
+    return "?"
+
+
+def subst_call(e, text, var):
+    """replace every sub-expression spelled `text` by the variable `var`"""
+    if isinstance(e, tuple):
+        if e[0] in ("method", "field", "var") and norm_text(e) == text:
+            return ("var", var)
+        return tuple(subst_call(x, text, var) if isinstance(x, (tuple, list)) else x for x in e)
+    if isinstance(e, list):
+        return [subst_call(x, text, var) for x in e]
+    return e
+
+
+KERNELS = {"Protected": k_protected, "Core": k_core, "Argon2": k_argon2, "Utils": k_utils, "Poly1305": k_poly1305, "Blake2b": k_blake2b, "SipHash": k_siphash}
 
 
 def main(argv):
